@@ -25,16 +25,40 @@ FNAME = "g.peg"
 FUEL = 6000
 
 
-def base_case():
-    """the case line of the parser the working tree's pigeon generates for grammar/pigeon.peg"""
+FRONTS = {
+    # name: (grammar file, the real tool's argv prefix, what stderr starts with on a syntax error)
+    "pigeon": ("pigeon.peg", lambda: [os.path.join(core.BIN, "pigeon"), "-x"], "parse error(s):\n "),
+    # the SECOND generated front-end of the bootstrap chain (C20): bootstrap/cmd/bootstrap-pigeon, whose parser
+    # (bootstrap_pigeon.go) is generated from grammar/bootstrap.peg by the hand-written bootstrap-build
+    "bootstrap": ("bootstrap.peg", lambda: [bootstrap_pigeon(), "-x"], "parse error:  "),
+}
+
+
+def bootstrap_pigeon():
+    """bootstrap/cmd/bootstrap-pigeon built from the working tree (cached with the other build products)"""
+    core.ensure_built()
+    out = os.path.join(core.BIN, "bootstrap-pigeon")
+    stamp = out + ".repo"
+    want = core.repo_hash()
+    if os.path.exists(out) and os.path.exists(stamp) and open(stamp).read() == want:
+        return out
+    rc, txt, _ = core.run(["go", "build", "-o", out, "./bootstrap/cmd/bootstrap-pigeon"], cwd=core.REPO, env=core.goenv(), check=False, timeout=600)
+    if rc != 0:
+        raise core.BuildError("bootstrap-pigeon does not build:\n" + txt[-2000:])
+    open(stamp, "w").write(want)
+    return out
+
+
+def base_case(front="pigeon"):
+    """the case line of the parser the working tree's pigeon generates for grammar/<front>.peg"""
     core.need_tool("pvlower")
     tmp = tempfile.mkdtemp(prefix="pvfm.", dir=core.BUILD)
     try:
         out = os.path.join(tmp, "pg.go")
-        rc, txt, _ = core.run([os.path.join(core.BIN, "pigeon"), "-o", out, os.path.join(core.REPO, "grammar", "pigeon.peg")],
+        rc, txt, _ = core.run([os.path.join(core.BIN, "pigeon"), "-o", out, os.path.join(core.REPO, "grammar", FRONTS[front][0])],
                               check=False, timeout=120, cwd=tmp)
         if rc != 0:
-            raise RuntimeError("the working tree's pigeon rejects its own grammar/pigeon.peg: " + txt[-500:])
+            raise RuntimeError("the working tree's pigeon rejects grammar/%s: " % FRONTS[front][0] + txt[-500:])
         rc, lines, _ = core.run([os.path.join(core.BIN, "pvlower"), "-readback", "o0l0b0:" + out], check=False, timeout=300)
         cl = [l for l in lines.splitlines() if l.startswith("case ")]
         if not cl:
@@ -44,16 +68,17 @@ def base_case():
         shutil.rmtree(tmp, ignore_errors=True)
 
 
-def real_tool(text, wd, i, limit=10):
+def real_tool(text, wd, i, limit=10, argv=None, prefix="parse error(s):\n "):
     path = os.path.join(wd, "t%d" % i, FNAME)
     os.makedirs(os.path.dirname(path), exist_ok=True)
     open(path, "wb").write(text)
-    p = subprocess.run(["sh", "-c", "ulimit -v 2000000; cd %s && exec timeout %d %s -x %s" % (os.path.dirname(path), limit, os.path.join(core.BIN, "pigeon"), FNAME)],
+    argv = argv or [os.path.join(core.BIN, "pigeon"), "-x"]
+    p = subprocess.run(["sh", "-c", "ulimit -v 2000000; cd %s && exec timeout %d %s %s" % (os.path.dirname(path), limit, " ".join(argv), FNAME)],
                        stdout=subprocess.PIPE, stderr=subprocess.PIPE, stdin=subprocess.DEVNULL)
     err = p.stderr.decode("utf-8", "replace")
     errs = None
-    if p.returncode == 3 and err.startswith("parse error(s):\n "):
-        errs = err[len("parse error(s):\n "):].rstrip("\n").split("\n")
+    if p.returncode == 3 and err.startswith(prefix):
+        errs = err[len(prefix):].rstrip("\n").split("\n")
     return p.returncode, errs, err
 
 
@@ -92,11 +117,12 @@ def judge(rc, rerrs, rraw, mres):
     return "diagnostic differs: the tool prints %r, the model (the tables of pigeon.peg run by the Lean runtime model) gives %r" % (sub[:2] or rerrs[:2], msub[:2])
 
 
-def run(prop, tier, seed, nq=250, nt=6000):
+def run(prop, tier, seed, nq=250, nt=6000, front="pigeon"):
     """returns (violations, coverage)"""
     core.ensure_built()
     n = nq if tier == "quick" else nt
-    base = base_case()
+    base = base_case(front)
+    argv, prefix = FRONTS[front][1](), FRONTS[front][2]
     # 13 = filename, 16 = fuel, last = input (PROTOCOL.md)
     base[13] = "x" + FNAME.encode().hex()
     base[16] = str(FUEL)
@@ -127,7 +153,7 @@ def run(prop, tier, seed, nq=250, nt=6000):
     wd = tempfile.mkdtemp(prefix="pvfm.run.", dir=core.BUILD)
     try:
         with ThreadPoolExecutor(16) as ex:
-            reals = list(ex.map(lambda ib: real_tool(ib[1][1], wd, ib[0]), enumerate(texts)))
+            reals = list(ex.map(lambda ib: real_tool(ib[1][1], wd, ib[0], argv=argv, prefix=prefix), enumerate(texts)))
     finally:
         shutil.rmtree(wd, ignore_errors=True)
     viol, stats = [], {}
@@ -148,11 +174,12 @@ def run(prop, tier, seed, nq=250, nt=6000):
         if v.startswith("skip:"):
             continue
         h = hashlib.sha1(b).hexdigest()[:10]
-        viol.append(("front-model/%s" % cls, {"why": v, "detail": v, "grammar_text_hex": b.hex(), "grammar_text": b.decode("utf-8", "replace")[:2000],
+        viol.append(("front-model-%s/%s" % (front, cls), {"why": v, "detail": v, "grammar_text_hex": b.hex(), "grammar_text": b.decode("utf-8", "replace")[:2000],
                                               "tool_exit": rc, "tool_stderr": rraw[:1500], "model_errors": mres.get("errs", [])[:4],
                                               "replay_cmd": "printf '%%s' '<grammar_text_hex>' | xxd -r -p > /tmp/g.peg && /verif/build/bin/pigeon -x /tmp/g.peg   # and the same text through pvdriver on the readback of grammar/pigeon.peg (pv/front_model.py)",
                                               "id": h}, True))
-    cov = {"front_model_texts": len(texts), "front_model_agree_rejected_same_diagnostic": agree_fail, "front_model_agree_accepted": agree_ok,
-           "front_model_outcomes": dict(sorted(stats.items())), "front_model_rules_in_table": int(base[17])}
-    log("front-end through the model: %d texts, %d rejected with the same diagnostic, %d accepted by both, %d disagreements" % (len(texts), agree_fail, agree_ok, len(viol)))
+    pre = "front_model_" if front == "pigeon" else "front_model_%s_" % front
+    cov = {pre + "texts": len(texts), pre + "agree_rejected_same_diagnostic": agree_fail, pre + "agree_accepted": agree_ok,
+           pre + "outcomes": dict(sorted(stats.items())), pre + "rules_in_table": int(base[17])}
+    log("front-end (%s.peg) through the model: %d texts, %d rejected with the same diagnostic, %d accepted by both, %d disagreements" % (front, len(texts), agree_fail, agree_ok, len(viol)))
     return viol, cov
